@@ -318,3 +318,47 @@ func zzReassemblePackedRecords() {
 		}
 	}
 }
+
+// Re-fragmented retransmissions (RFC 6347 4.2.3 lets a sender fragment a retransmission differently, e.g. after a
+// path-MTU change): ONE message of length 1..NLOVER whose NKOVER pieces are ARBITRARY non-empty byte ranges - any
+// offsets and lengths, overlapping or not, from as many different fragmentations as there are pieces (all carry the
+// same body bytes). Safety only is claimed for such input: whenever the buffer surfaces the message, every one of its
+// bytes has arrived in some piece and the surfaced bytes are header(type, L, seq, 0, L) followed by the original
+// body; it is surfaced at most once. (That such a message is EVENTUALLY surfaced once all bytes have arrived is not
+// claimed: the buffer keeps the first fragment per offset and may need a retransmission that fits.)
+//
+//symgo:param NLOVER quick=3 thorough=4
+//symgo:param NKOVER quick=3 thorough=4
+//symgo:entry covers=overlap_surfaced_complete,overlap_held_back,overlapping_pieces_seen
+func zzReassembleOverlappingFragmentations() {
+	l := 1 + zzsymChoice("L", zzsymParam("NLOVER"))
+	m := zzNewMsg("m", 0, l)
+	fb := New()
+	surfaced := 0
+	for i := 0; i < zzsymParam("NKOVER"); i++ {
+		off := zzsymChoice("off", l)
+		n := 1 + zzsymChoice("len", l-off)
+		for _, p := range m.pieces {
+			if !(p[0] == off && p[1] == n) && !(off+n <= p[0] || p[0]+p[1] <= off) {
+				zzsymCover("overlapping_pieces_seen")
+			}
+		}
+		_, _, err := fb.Push(zzRecord(m.epoch, uint8(i), m.zzPiece(off, n)))
+		zzsymAssert(err == nil, "overlap_push_ok")
+		m.zzArrive(off, n)
+		for {
+			out, _ := fb.Pop()
+			if out == nil {
+				break
+			}
+			surfaced++
+			zzsymAssert(m.zzComplete(), "message_surfaced_while_a_byte_is_missing")
+			zzsymAssert(zzsymEqBytes(out, m.zzWhole()), "surfaced_message_is_the_original")
+			zzsymAssert(surfaced == 1, "message_surfaced_once")
+			zzsymCover("overlap_surfaced_complete")
+		}
+	}
+	if surfaced == 0 {
+		zzsymCover("overlap_held_back")
+	}
+}
